@@ -1,1 +1,82 @@
-From NC Require Import Model.Base Model.SessionLTS.
+(* Props/C04.v — transport loss fails every outstanding request; no call outlives its timeout.
+   Model: Model/SessionLTS.v. The error path is modelled effect by effect (snapshot+clear of the pending
+   table under its lock, one deliver_error per snapshot entry, close, exit); requests may be registered by
+   other threads between any two of these effects. *)
+From NC Require Import Model.Base Model.SessionLTS Proofs.SessionLTSProofs.
+
+(* Once the worker has processed the loss (EOF, read error, failed dispatch) and closed or exited — under
+   every interleaving with threads registering and sending new requests — every request that had been
+   written to the transport and has no reply has its error stored and its event set. *)
+Theorem C04_all_failed : forall s rid r,
+  reach s -> pc s = WClosed \/ pc s = WExited ->
+  rq s rid = Some r -> In rid (wrote s) -> r_reply r = None ->
+  r_error r <> None /\ r_ev r = true.
+Proof. exact c04_all_failed. Qed.
+Print Assumptions C04_all_failed.
+
+(* Promptness: this already holds when the broadcast has delivered its last error, i.e. after exactly
+   |snapshot| deliver steps following the snapshot, with no blocking label in between. *)
+Theorem C04_prompt : forall s rid r e,
+  reach s -> pc s = WErrDeliver e [] ->
+  rq s rid = Some r -> In rid (wrote s) -> r_reply r = None -> r_error r <> None /\ r_ev r = true.
+Proof. exact c04_all_failed_after_broadcast. Qed.
+Print Assumptions C04_prompt.
+
+(* The stored error is the broadcast one; after the peer closed the connection it is SessionCloseError
+   (code 1), a TransportError. *)
+Theorem C04_error_kind : forall s rid r e,
+  reach s -> rq s rid = Some r -> r_error r = Some e ->
+  bcast s = Some e /\ (eof_seen s = true -> e = 1).
+Proof. exact c04_error_is_broadcast. Qed.
+Print Assumptions C04_error_kind.
+
+(* The session then reports itself disconnected ... *)
+Theorem C04_disconnected : forall s, reach s -> pc s = WClosed \/ pc s = WExited -> connected s = false.
+Proof. exact c04_disconnected. Qed.
+Print Assumptions C04_disconnected.
+
+(* ... and a later request is refused with TransportError (code 5) without being queued. *)
+Theorem C04_refused_after : forall s rid b s' r',
+  connected s = false -> step s (LChk rid b) = Some s' -> rq s' rid = Some r' ->
+  b = false /\ r_st r' = CDone (OExc 5).
+Proof. exact c04_refused_after. Qed.
+Print Assumptions C04_refused_after.
+
+(* A stored error wins over everything else when the call returns: never a partial or foreign reply. *)
+Theorem C04_error_wins : forall s rid s' r r',
+  rq s rid = Some r -> r_error r <> None -> step s (LWaitRes rid true) = Some s' -> rq s' rid = Some r' ->
+  exists e, r_st r' = CDone (OExc e).
+Proof. exact c04_error_wins. Qed.
+Print Assumptions C04_error_wins.
+
+(* The only blocking point of a synchronous call is the bounded wait; when it ends (event set, or the
+   timeout fired) the call ends: with TimeoutExpiredError (code 4) if the event was not set. *)
+Theorem C04_bounded_wait : forall s rid flag s' r',
+  step s (LWaitRes rid flag) = Some s' -> rq s' rid = Some r' ->
+  exists o, r_st r' = CDone o /\ (flag = false -> o = OExc 4).
+Proof. exact c04_wait_ends. Qed.
+Print Assumptions C04_bounded_wait.
+
+(* Non-vacuity: three requests on the wire, the peer closes; a fourth request is registered between the
+   snapshot and the delivery of the errors (the F10 race window). *)
+Definition ex_loss : list label :=
+  [ LReg 0 100; LChk 0 true; LPut 0; LReg 1 101; LChk 1 true; LPut 1; LReg 2 102; LChk 2 true; LPut 2;
+    LDeq 0; LDeq 1; LDeq 2;
+    LReadEof; LErrBcast 1; LTValues [100; 101; 102]; LTClear;
+    LEvSetErr 0; LReg 3 103; LEvSetErr 1; LChk 3 true; LEvSetErr 2; LPut 3;
+    LClose 0; LExit; LWaitRes 0 true; LWaitRes 1 true; LWaitRes 2 true;
+    LReg 4 104; LChk 4 false ].
+
+Example C04_ex_loss :
+  match run (init true) ex_loss with
+  | Some s => map r_st (reqs s) = [CDone (OExc 1); CDone (OExc 1); CDone (OExc 1); CSent; CDone (OExc 5)]
+              /\ pc s = WExited /\ connected s = false /\ wrote s = [0; 1; 2]%nat /\ eof_seen s = true
+  | None => False
+  end.
+Proof. vm_compute. repeat split; reflexivity. Qed.
+
+(* the pre-fix behaviour (iterating the live table while it changes) is not a trace of the model:
+   errors cannot be delivered before the snapshot was taken and the table cleared *)
+Example C04_ex_unlocked_iteration_rejected :
+  run (init true) [LReg 0 100; LChk 0 true; LPut 0; LDeq 0; LReadEof; LErrBcast 1; LTValues [100]; LEvSetErr 0] = None.
+Proof. vm_compute. reflexivity. Qed.
